@@ -48,7 +48,7 @@ def canon_json(j):
 
 
 def direct(root, spec):
-    return run_impl(IMPL, {'root': root, 'spec': spec, 'fmts': [B.format_string(s) for s in spec['sources']],
+    return run_impl(IMPL, {'root': B.budget_root(spec, root), 'spec': spec, 'fmts': [B.format_string(s) for s in spec['sources']],
                            'delims': [B.setting_delimiter(s) for s in spec['sources']]}, timeout=120)
 
 
@@ -197,6 +197,18 @@ def check_frame(root, spec, kind, i, variant, base=None):
         if a != b:
             fails.append({'law': f'frame/{kind}', 'detail': f'changing {kind} changed the parsed rows (source, date, description, |amount|): '
                           + str(first_diff([list(x) for x in a], [list(x) for x in b]))})
+    elif kind == 'layout' or (kind == 'ascii' and spec['sources'][i]['supplemental']):
+        # where the config directory physically lives / how an irrelevant cell of a supplemental file is spelled
+        # governs nothing in the report
+        df = first_diff(canon(base['html']['data']), canon(v['html']['data']))
+        if df or base['html']['rc'] != v['html']['rc']:
+            fails.append({'law': f'frame/{kind}', 'detail': f'the report changed: rc {base["html"]["rc"]} -> {v["html"]["rc"]}; ' + str(df)})
+    elif kind == 'ascii':
+        keep = {t[2] for t in base['txns'] if t[2].isascii()}
+        a, b = [t for t in base['txns'] if t[2] in keep], [t for t in v['txns'] if t[2] in keep]
+        if a != b or len(base['txns']) != len(v['txns']):
+            fails.append({'law': 'frame/ascii', 'detail': 'respelling non-ASCII descriptions changed other rows: '
+                          + str(first_diff([list(x) for x in a], [list(x) for x in b])) + f' / {len(base["txns"])} vs {len(v["txns"])} transactions'})
     elif kind == 'rename':
         a, b = sorted(t[1:] for t in base['txns']), sorted(t[1:] for t in v['txns'])
         if a != b or base['sections'] != v['sections']:
@@ -309,7 +321,7 @@ def plan_toggles(spec, rnd, k):
     for i in ns:
         for kind in SOURCE_KINDS:
             cands.append((kind, i))
-    for kind in ('rule_mode', 'rules', 'views', 'currency_format'):
+    for kind in ('rule_mode', 'rules', 'views', 'currency_format', 'layout'):
         cands.append((kind, None))
     if 'source' not in json.dumps(spec['rules']):      # no rule looks at the source name
         for i in ns:
@@ -419,7 +431,7 @@ def corpus():
                 ['CAF\u00c9', 'Cafe', 'Food', 'Cafe', ''], ['NETFLIX', 'Netflix', 'Subscriptions', 'Streaming', ''],
                 ['^STRASSENBAHN', 'Tram', 'Transport', 'Tram', ''], ['FUSSBALL\\s+SHOP$', 'Fussball', 'Fun', 'Sport', '']]
     ger = bud([S('Giro', 'data/giro.csv', de)], kind='csv', csv=csvrules)
-    out.append((ger, [('rules', None)], None))
+    out.append((ger, [('rules', None), ('ascii', 0)], None))
     # the same descriptions under .rules contains()/regex(): the documented meaning is case-insensitive search
     byr = bud([S('Giro', 'data/giro.csv', copy.deepcopy(de))], kind='rules',
               expect={'Gro\u00dfmarkt S\u00fcd': ['Markt', 'Groceries', 'Market'], 'netflix.com': ['Netflix', 'Subscriptions', 'Streaming'],
@@ -429,6 +441,28 @@ def corpus():
         byr['rules']['rules'].append({'name': name, 'match': match, 'category': cat, 'subcategory': sub, 'merchant': '', 'tags': [],
                                       'let': [], 'field': [], 'priority': None})
     out.append((byr, [], None))
+    # ---- a supplemental file that is not valid UTF-8 in an irrelevant cell (Latin-1 export): the loader decodes leniently,
+    #      the rows that rules query are all there; and the valid-UTF-8 neighbour
+    card = [R('2025-02-07', 'AMZN MKTP US', 100), R('2025-02-09', 'AMZN MKTP US', 104), R('2025-02-11', 'MYSTERY SHOP', 60)]
+    for enc in ('latin-1', None):
+        orders = S('Orders', 'data/orders.csv', [R('2025-02-01', 'Caf\u00e9 cr\u00e8me', 3996), R('2025-02-07', 'Book', 100), R('2025-02-11', 'Stra\u00dfe', 60)],
+                   cols=['date', 'item', 'amount'], supplemental=True, template='{item}', encoding=enc)
+        for first in (True, False):
+            srcs = [S('Card', 'data/card.csv', copy.deepcopy(card))]
+            srcs.insert(0 if first else 1, copy.deepcopy(orders))
+            sb = bud(srcs, kind='rules')
+            sb['rules']['rules'] = [B.mkrule(B.SUPP_RULES[1]), B.mkrule(B.SUPP_RULES[0])]
+            out.append((sb, [('ascii', 0 if first else 1), ('supplemental', 0 if first else 1)], None))
+    # ---- the config directory is a symlink (shared config, per-year data), with and without same-named decoy files next to
+    #      the link target
+    for lay in ('symlink', 'symlink-decoy'):
+        lb = bud([S('Chase', 'data/chase.csv', copy.deepcopy(jan)), S('Card', 'data/card.csv', copy.deepcopy(feb), delimiter=';')],
+                 kind='rules', rules=['Netflix', 'Costco', 'Fuel'], views=[list(B.VIEW_POOL[0])])
+        lb['layout'] = lay
+        out.append((lb, [('layout', None), ('file', 0)], ('Card', 'missing') if lay == 'symlink' else None))
+    cb = bud([S('Chase', 'data/chase.csv', copy.deepcopy(jan))], kind='csv', csv=B.CSV_POOL[:4])
+    cb['layout'] = 'symlink-decoy'
+    out.append((cb, [('layout', None)], None))
     return out
 
 
@@ -560,7 +594,8 @@ def main(tier):
     rnd = random.Random(run.seed * 7919 + 11)
     n = 100 if tier == "quick" else 1500
     per = 3 if tier == 'quick' else 5
-    jobs = [(k, spec, toggles, miss) for k, (spec, toggles, miss) in enumerate(corpus())]
+    jobs = [(k, spec, toggles, ([i for i, x in enumerate(spec['sources']) if x['name'] == miss[0]][0], miss[1]) if miss else None)
+            for k, (spec, toggles, miss) in enumerate(corpus())]
     n += len(jobs)
     plan_toggles.count = collections.Counter()
     for k in range(len(jobs), n):
